@@ -4,6 +4,8 @@ import json, sys
 from pathlib import Path
 sys.path.insert(0, str(Path(__file__).resolve().parent.parent))
 from sa import canon
-d = canon.generate(Path("/repo/src/physt"))
-canon.REF.write_text(json.dumps(d, indent=0, sort_keys=True))
+for _ in range(2):     # second pass: fingerprints computed with the package-wide signatures the first pass recorded
+    d = canon.generate(Path("/repo/src/physt"))
+    canon.REF.write_text(json.dumps(d, indent=0, sort_keys=True))
+    canon._cache = None
 print(sum(len(v) for k, v in d.items() if not k.startswith("__")), "functions with locals recorded")
